@@ -148,17 +148,18 @@ def decodeDop : (fuel : Nat) → Dop → DecM PVal
       | .error _ => raise .unmodelled
       | .ok false => do odxraise .decode; pure .none               -- "could not convert the coded value"; lenient: `return`
       | .ok true => do
-        -- (not inside a `try`: a ZeroDivisionError of LINEAR would escape — the model does not follow that, see design_notes/C05.md)
-        let r ← methodI2P .unmodelled m i
+        -- `except (ArithmeticError, ValueError): raise DecodeError` (fix c05-dtc-dop-conversion-error, /repo c6b4881):
+        -- the ZeroDivisionError of a LINEAR method with COMPU-DENOMINATOR 0 is a DecodeError, as in a plain DOP
+        let r ← methodI2P .decode m i
         match r with
-        | some (.int code) => do                                   -- `assert isinstance(trouble_code, int)`
+        | some (.int code) => do                                   -- `isinstance(trouble_code, int)`
           let hits := dtcs.filter fun d => d.1 == code
           odxassert (hits.length < 2)                              -- "Multiple matching DTCs"
           -- exactly one: that DTC; otherwise "Encountered DTC … which has not been defined" and, in lenient mode, a made-up
           -- DiagnosticTroubleCode with this trouble code
           if hits.length ≠ 1 then odxraise .decode
           pure (.dtc code)
-        | _ => raise .unmodelled
+        | _ => raise .decode                                       -- "the trouble code … is not an integer" (same fix; both modes)
     | _, _ => raise .unmodelled
 
 def decodeStaticItems (item : Dop) (itemSize : Nat) : (fuel : Nat) → Nat → DecM (List PVal)
